@@ -3,6 +3,7 @@ import PsVerif.Driver.Stateful
 import PsVerif.Driver.Abs
 import PsVerif.Driver.ScriptD
 import PsVerif.Driver.Registry
+import PsVerif.Driver.PolicyD
 /-
 psdriver: one request per line on stdin, one reply per line on stdout.
 The replies are computed by the SAME definitions the theorems in PsVerif/Props are about.
@@ -13,6 +14,7 @@ structure DState where
   rates : RateStore := []
   abs : AbsState := .none
   reg : PsVerif.Model.Service.Reg := ⟨[], []⟩
+  pol : Option PsVerif.Model.PolicyFile.St := none
 
 def step (st : DState) (ws : List String) : DState × String :=
   match handlePure ws with
@@ -29,6 +31,9 @@ def step (st : DState) (ws : List String) : DState × String :=
   | none =>
   match handleRegistry st.reg ws with
   | some (g, r) => ({ st with reg := g }, r)
+  | none =>
+  match handlePolicy st.pol ws with
+  | some (p, r) => ({ st with pol := p }, r)
   | none => (st, "bad-op")
 
 partial def loop (hin hout : IO.FS.Stream) (st : DState) : IO Unit := do
